@@ -776,6 +776,17 @@ def _unwrap(o):
 
 
 def _wrap(f, a, b):
+    if type(a).__module__ == "numpy" and hasattr(a, "shape") and getattr(a, "ndim", 0) > 0 or type(b).__module__ == "numpy" and hasattr(b, "shape") and getattr(b, "ndim", 0) > 0:
+        import numpy as np
+        if isinstance(a, np.ndarray):
+            out = np.empty(a.shape, dtype=object)
+            for idx in np.ndindex(*a.shape):
+                out[idx] = _wrap(f, a[idx], b)
+            return out
+        out = np.empty(b.shape, dtype=object)
+        for idx in np.ndindex(*b.shape):
+            out[idx] = _wrap(f, a, b[idx])
+        return out
     ta, tb = _unwrap(a), _unwrap(b)
     if ta is None or tb is None:
         return NotImplemented
